@@ -236,13 +236,17 @@ def run(pid, tier, seed):
             prev = next((c0 for (kd0, k0, c0), _ in reversed(blocks[:idx]) if kd0 == "cmd"), "")
             if nxt is None or not prev.startswith("copy ") or not nxt[0].startswith("solve ") or nxt[0].split()[2:] != ca.split()[2:]:
                 continue
+            if prev.split()[1:3] != [ca.split()[1], nxt[0].split()[1]]:
+                continue          # the two solves are not "original, then its fresh copy"
             ra = (proto.get(ba, "rval"), proto.get(ba, "status"), proto.get(ba, "objval") if proto.get(ba, "status") == ["1"] else None)
             rb = (proto.get(nxt[1], "rval"), proto.get(nxt[1], "status"), proto.get(nxt[1], "objval") if proto.get(nxt[1], "status") == ["1"] else None)
             ev.stat("paired-solves")
             ev.stat("paired-solve-status:%s" % (ra[1][0] if ra[1] else "?"))
             sa, sb = (ra[1] or ["?"])[0], (rb[1] or ["?"])[0]
             definitive = ("1", "2", "3")
-            differs = ra[0] != rb[0] or (sa in definitive and sb in definitive and ra != rb) or {sa, sb} == {"1", "9"}
+            # OPTIMAL for the (warm-started) original and OBJ_LIMIT for the cold copy is path dependence: the original may sit at
+            # its optimum without a single pivot, the copy crosses the limit on its way there.  The other direction is not.
+            differs = ra[0] != rb[0] or (sa in definitive and sb in definitive and ra != rb) or (sa, sb) == ("9", "1")
             if ra != rb and not differs:
                 # a fresh copy starts from scratch while the original may continue from its last basis: iteration / time limits,
                 # UNSOLVED, and OBJ_LIMIT versus INFEASIBLE / UNBOUNDED are not statements about the problem
